@@ -4,6 +4,7 @@ import (
 	"errors"
 	"fmt"
 	"math"
+	"strings"
 	"time"
 
 	"github.com/flosch/pongo2/v6"
@@ -135,6 +136,7 @@ func zooEntries(s string) []zooEntry {
 		{"z_badutf", "bad\xff\xfeutf\xc3", "invalid UTF-8 string"},
 		{"z_badhtml1", "<b>bold</b\xff> tail <i>x</i\xc3", "invalid UTF-8 inside closing tags"},
 		{"z_badhtml2", "<a\xff href='x'>t</\xfea> &amp\xff; </\ufffdb> <p\xe2\x82>", "invalid UTF-8 inside opening tags, closing tags and entities"},
+		{"z_mburl", "www." + strings.Repeat("日本語", 20) + ".jp and http://é" + strings.Repeat("ü", 40) + ".example/" + strings.Repeat("ß", 30) + " mail@" + strings.Repeat("ö", 25) + ".de", "URLs and an e-mail address made of many multi-byte characters"},
 		{"z_badhtml3", "</\xff", "unterminated closing tag ending in an invalid byte"},
 		{"z_numstr", "42", "numeric string"},
 		{"z_hiddenkey", "hidden", "name of an unexported field"},
